@@ -344,7 +344,9 @@ Section ObjE.
     bd_init b' = true /\ bd_size b' = size /\ bd_completed b' = bd_completed b /\ bd_data b' = None.
   Proof.
     intros Hi. unfold bd_init_block. rewrite Hi.
-    destruct (ro_fec oti); try destruct (rs_ok k (ro_parity oti)); try destruct (ro_scheme oti);
+    destruct (ro_fec oti); try destruct (rs_ok k (ro_parity oti));
+      try (destruct (ro_scheme oti) as [[[z n] al]|]);
+      repeat match goal with |- context [if ?x then None else _] => destruct x end;
       intros H; inversion H; cbn; auto.
   Qed.
 
@@ -524,7 +526,7 @@ Section ObjW.
   Lemma W_push_from_cache o c : W o -> W (fst (push_from_cache E o c)).
   Proof.
     intros (S & PK & CP). split; [|split]; [| |exact (cpk_ckc _ _ CP (ckc_push_from_cache E o c))].
-    all: unfold push_from_cache; destruct (nb_block o =? 0); [assumption|].
+    all: unfold push_from_cache; destruct (cache_replay_blocked o); [assumption|].
     all: destruct (W_drain_cache (List.rev (r_cache o)) o c) as [S1 H1];
       [apply Forall_rev; exact CP|exact S|exact PK| |].
     1,3: intros Hne; apply st_not_dormant; [exact S|left; intros X; apply Hne; rewrite X; reflexivity].
